@@ -80,15 +80,22 @@ def _om_key(e) -> str | None:
 
 
 def _captured(ctx, f: FuncInfo) -> dict[str, str]:
-    for n in own_nodes(f.node):
-        if isinstance(n, ast.Dict) and len(n.keys) > 5:
-            out = {}
-            for k, v in zip(n.keys, n.values):
-                if isinstance(k, ast.Constant) and isinstance(k.value, str):
-                    out[k.value] = dotted_of(v) or norm(v)
-            return out
-    ctx.require(False, "get_original_methods: capture dictionary not found")
-    return {}
+    """The table get_original_methods returns: the entries of every dict display it is put together from (`{**a(), **b()}` with a, b
+    private functions of the module returning displays, a single display, or displays merged by `|` / update)."""
+    out: dict[str, str] = {}
+    nodes = [f.node]
+    for c in calls_in(f):
+        g = f.module.functions.get(dotted_of(c.func) or "")
+        if g is not None and g is not f and not isinstance(g.node, ast.Lambda):
+            nodes.append(g.node)
+    for fn in nodes:
+        for n in ast.walk(fn):
+            if isinstance(n, ast.Dict):
+                for k, v in zip(n.keys, n.values):
+                    if isinstance(k, ast.Constant) and isinstance(k.value, str):
+                        out[k.value] = dotted_of(v) or norm(v)
+    ctx.require(len(out) > 5, "get_original_methods: capture dictionary not found")
+    return out
 
 
 def _fold(e, env: dict):
@@ -251,6 +258,7 @@ def _saved_state(en: FuncInfo, ex: FuncInfo):
         return out
 
     carriers: dict[str, tuple[str, set[str]]] = {}
+    fields: dict[str, dict[str, set[str]]] = {}
     for n in own_nodes(en.node):
         if isinstance(n, ast.Assign) and len(n.targets) == 1 and isinstance(n.targets[0], ast.Attribute) and norm(n.targets[0].value) == me:
             h = what(n.value)
@@ -261,6 +269,15 @@ def _saved_state(en: FuncInfo, ex: FuncInfo):
             h = what(n.args[0])
             if h:
                 carriers[n.func.value.attr] = ("stack", h)
+                # a record pushed as `Record(a, b)` (a NamedTuple / dataclass of the module) is read back by field name
+                a0 = n.args[0]
+                if isinstance(a0, ast.Call) and isinstance(a0.func, ast.Name) and a0.func.id in en.module.classes and not a0.keywords:
+                    cls = en.module.classes[a0.func.id]
+                    names = [st.target.id for st in cls.node.body if isinstance(st, ast.AnnAssign) and isinstance(st.target, ast.Name)]
+                    if len(names) == len(a0.args):
+                        fields[n.func.value.attr] = {nm: what(arg) for nm, arg in zip(names, a0.args)}
+                elif isinstance(a0, ast.Call) and isinstance(a0.func, ast.Name) and a0.func.id in en.module.classes and a0.keywords and not a0.args:
+                    fields[n.func.value.attr] = {k.arg: what(k.value) for k in a0.keywords if k.arg}
     me2 = ex.params[0]
     exit_names: dict[str, set[str]] = {}
     for f_, (kind, h) in carriers.items():
@@ -275,6 +292,8 @@ def _saved_state(en: FuncInfo, ex: FuncInfo):
                     for x in ast.walk(t):
                         if isinstance(x, ast.Name):
                             exit_names[x.id] = set(carriers[fld][1])
+                            for fname, h in fields.get(fld, {}).items():
+                                exit_names[f"{x.id}.{fname}"] = set(h)
     # locals of __exit__ copied from what was read back (`a, b = self.A, self.B` / `a = self.A`)
     for _ in range(2):
         for n in own_nodes(ex.node):
